@@ -291,7 +291,8 @@ def r06a(ctx):
         r = K((one[0][0],), (), 1)
         ctx.check(rule, K.fn, r[0] == "raise", f"{cname}: bra-ket symmetry with unequal group sizes refused",
                   f"{cname}: bra-ket symmetry with unequal numbers of upper and lower indices gives {r}", key=f"len {cname}")
-        ctx.floor(rule, f"compared pairs of {cname}", n_pairs, 20)
+        if not ctx.violations:
+            ctx.floor(rule, f"compared pairs of {cname}", n_pairs, 20)
 
 
 # ---------------------------------------------------------------------- R06c
@@ -374,7 +375,8 @@ def r06c(ctx):
             ctx.check(rule, K.fn, r[0] == "ok", "repeated index in a symmetric group does not vanish",
                       f"a symmetric tensor with a repeated index inside a group evaluates to {r}; the declared "
                       "symmetry does not force it to zero", key=f"{cname} symmetric repeated")
-        ctx.floor(rule, f"constructor scenarios of {cname}", n, 40)
+        if not ctx.violations:
+            ctx.floor(rule, f"constructor scenarios of {cname}", n, 40)
 
 
 # ---------------------------------------------------------------------- R06b
@@ -527,7 +529,8 @@ def r06b(ctx):
                            ("braket", "bra-ket partners give one object"), ("braket sign", "bra-ket partners differ by bra_ket_sym")):
             ctx.check(rule, fn, kind not in bad, f"{cname}: {fact} ({n_eval} constructions)", bad.get(kind, ""),
                       key=f"{cname} {kind}")
-        ctx.floor(rule, f"evaluated constructions of {cname}", n_eval, 100)
+        if not ctx.violations:
+            ctx.floor(rule, f"evaluated constructions of {cname}", n_eval, 100)
 
 
 # ---------------------------------------------------------------------- R06d
@@ -795,7 +798,7 @@ class Scene:
         ZS = self.tensor(A, "z", (b,), (i,), 1)
         NX = self.nonsym("x", (i, a))
         T1 = self.tensor(AM, f"{self.t}1cc", (a,), (i,))
-        T2 = self.tensor(AM, f"{self.t}2cc", (a, b), (i, j))
+        T2 = self.tensor(AM, f"{self.t}2cc", (a, b), (i, j), 1)
         T3 = self.tensor(AM, f"{self.t}2", (a, b), (i, j), 1)
         TC = self.tensor(AM, f"{self.t}cc", (b,), (j,))
         D = self.delta(i, j)
@@ -827,8 +830,22 @@ class _Paths:
         self.outs = outs
 
 
+class _Diverges:
+    """The evaluation does not terminate (a method that ends up calling itself on the same content)."""
+    kind = "diverges"
+    value = None
+
+    def __init__(self, why):
+        self.exc = why
+
+
 def _one(ctx, scene, what, build, call, strict=True):
-    res = scene.cx.run(build, call)
+    try:
+        res = scene.cx.run(build, call)
+    except AnalysisError as e:
+        if "recursion bound exceeded" in str(e) or "inlining depth exceeded" in str(e):
+            return _Diverges("unbounded recursion (" + str(e)[:120] + ")")
+        raise
     if len(res) != 1:
         if strict:
             raise AnalysisError(f"R06: {what}: {len(res)} paths through a concrete scenario: {[o for o, _ in res][:3]}")
@@ -1095,6 +1112,8 @@ def add_bra_ket_sym(ctx):
 
 
 def _floors(ctx):
+    if ctx.violations:
+        return          # scenarios that end in a violation are not evaluated further: the counts say nothing then
     for rule, minimum in (("R06a", 4), ("R06c", 40), ("R06d", 100), ("R06e", 100), ("R06f", 100)):
         if ctx.want(rule) and (ctx.only_rule is None or ctx.only_rule == rule):
             ctx.floor(rule, "evaluated scenarios", ctx.per_rule.get(rule, {}).get("obligations", 0), minimum)
